@@ -304,6 +304,16 @@ def handle (op payload : String) : String :=
           ++ " coerce=" ++ bit (Types.Ty.coerceInto x y) ++ " coerceaddr=" ++ bit (Types.Ty.coerceAddressInto x y)
       | _, _ => "bad-request"
     | _ => "bad-request"
+  | "update" =>
+    match Sexp.parse payload with
+    | some (.list [.atom "update", a, b, .atom sa, .atom na]) =>
+      match Types.tyOfSexp 32 a, Types.tyOfSexp 32 b with
+      | some x, some y =>
+        match Types.Ty.update x y (sa == "1") (na == "1") with
+        | none => "none"
+        | some r => if r == x then "old" else if r == y then "new" else "other"
+      | _, _ => "bad-request"
+    | _ => "bad-request"
   | "C18" => c18 payload
   | "C09" => c09 payload
   | "lex" =>
